@@ -34,9 +34,21 @@ while the task is parked starts with a stale flag; for such a poll the statement
 earlier poll that parked it.)  `park_only_pending` is the converse direction: under the same
 hypotheses the flag is set only by a poll that returns `Pending`.
 
-No statement had to be weakened: there is no `_full`/`_partial` pair in this file.  Section 4 has
-concrete connections that park in each of the four places (`ex0`/`exR`, `exH`, `exW`, `exB`/`exB2`)
-and one that is `Pending` while it still owes a reply and is, accordingly, not parked (`exQ`).
+Sections 1–4 needed no weakening.  Section 4 has concrete connections that park in each of the four
+places (`ex0`/`exR`, `exH`, `exW`, `exB`/`exB2`) and one that is `Pending` while it still owes a reply
+and is, accordingly, not parked (`exQ`).
+
+Section 5 is the executor level.  `pollConn_oc`/`poll_flags`: the exact flag discipline of one poll
+(no hypothesis on the flags, so stale `readWaker`s are covered): flags untouched unless `Pending`; a
+`Pending` is transient (`woken`), a parked read (`readWaker`, and then `ConnParked`), or a lock
+future that found the mutex taken (neither flag).  Corollaries `poll_done_flags`,
+`poll_at_most_one_flag`, `pending_unwoken`.  `runTask_stall`/`runTask_stall_out`: the executor's
+"STALL" verdict — for any stop request — means `StallOut`; `stall_means_gate_closed`;
+`runTask_stall_owes_nothing_partial` (mutex free ⇒ owes nothing, processed, drained).  Two claims
+are false as stated and are kept as `_full` with a refutation (`runTask_stall_owes_nothing_full`,
+`pending_unwoken_parked_full`; witness `exL`: a handler that ignored a write error waits for its own
+lock).  Examples: `exHS` (stall in the handler, peer holds), `exK` (stall in `parse_request` after a
+complete KeepConn request, end mode `pend`).
 -/
 namespace Fcgi.C08Inv
 open Fcgi Fcgi.Req Fcgi.Str Fcgi.Async Fcgi.Run
@@ -764,5 +776,477 @@ example : ∃ c' rp, pollConn 2 exQ = (c', .pending) ∧ c'.env.tr.readWaker = f
   ⟨_, _, rfl, rfl, rfl, rfl⟩
 
 end Examples
+
+/-! ## 5. The flag discipline of a whole poll, and the wake-accurate executor
+
+`runTask` clears `woken` before every poll (`prePoll`); `readWaker` is cleared only by
+`Env.release` when the peer releases input (which then also sets `woken`).  A poll touches the two
+flags as `Outcome` says (Proofs/C08Inv §7): not at all unless it returns `Pending`; a `Pending` is a
+transient one (sets `woken` only), a parked read (sets `readWaker` only — and then the task owes
+nothing), or a lock future that found the mutex taken (sets neither: nobody will wake the task). -/
+
+/-- what holds of the connection when a read parked in this poll -/
+def ConnParked (c' : Conn) : Prop :=
+  c'.env.tr.input = [] ∧ OwesNothing c'.phase ∧ Processed c'.phase ∧ MidRecord c'.phase
+
+def StepOc (c : Conn) : Step → Prop
+  | .next c1 => Same c.env.tr c1.env.tr
+  | .halt c1 res => Outcome c.env.tr c1.env.tr c1.env.mutex (prP res) (ConnParked c1)
+
+theorem stepConn_oc (c : Conn) (hinv : CInv c) : StepOc c (stepConn c) := by
+  obtain ⟨phase, env, scripts, stop⟩ := c
+  unfold CInv at hinv
+  simp only at hinv
+  cases phase with
+  | finished => exact Outcome.idle _ _ _
+  | handler r h =>
+    simp only [stepConn]
+    cases hhp : handlerPoll (1000 + env.tr.input.length * 4 + (env.segs.map (·.2.length)).sum * 4) r h env with
+    | mk r' x =>
+      obtain ⟨h', e', res⟩ := x
+      have hp := handlerPoll_oc _ _ _ _ hhp
+      cases res with
+      | pending =>
+        exact hp.mono (fun ⟨hk, hops⟩ => ⟨hk.drained, ⟨hk.out, hops⟩, ⟨hk.quiet, hk.active⟩, trivial⟩)
+      | panic s => exact Outcome.idle' hp.same _ _
+      | done res =>
+        have h1 : Same env.tr e'.tr := hp.same
+        cases res with
+        | ok st => exact h1
+        | error x =>
+          simp only []
+          split
+          · exact h1
+          · exact Outcome.idle' h1 _ _
+  | closing r cs status alive =>
+    simp only [stepConn]
+    cases hcp : closePoll r cs status alive env.mutex env.tr with
+    | mk r' x =>
+      obtain ⟨cs', m', t', res⟩ := x
+      have hb : cs = .inBoundary → BParked r.sp := by
+        intro hc; subst hc; exact hinv
+      have hp := closePoll_oc hcp hb
+      cases res with
+      | pending =>
+        refine hp.mono (fun ⟨hin, hk⟩ => ?_)
+        rcases hk with ⟨hc, hk⟩ | ⟨hc, hk⟩
+        · subst hc; exact ⟨hin, Or.inl ⟨rfl, hk.out⟩, hk.quiet, trivial⟩
+        · subst hc; exact ⟨hin, Or.inr rfl, hk.quiet, hk.mid⟩
+      | panic s => exact Outcome.idle' hp.same _ _
+      | err e => exact Outcome.idle' hp.same _ _
+      | reuse rp => exact hp.same
+  | parseReq rp sub =>
+    cases stop with
+    | true => exact Outcome.idle _ _ _
+    | false =>
+      cases sub with
+      | start =>
+        simp only [stepConn, Bool.false_eq_true, if_false]
+        cases hp : rp.parse [] with
+        | mk rp' oy =>
+          cases oy with
+          | none => exact Outcome.idle _ _ _
+          | some y => exact Same.refl _
+      | reading =>
+        simp only [stepConn, Bool.false_eq_true, if_false]
+        cases hrd : env.tr.read rp.free with
+        | mk t pr =>
+          have hp := (read_oc hrd).anyMutex env.mutex
+          cases pr with
+          | pending => exact hp.mono (fun hin => ⟨hin, rfl, hinv.2, trivial⟩)
+          | ready ex =>
+            have h1 : Same env.tr t := hp.same
+            cases ex with
+            | error e => exact Outcome.idle' h1 _ _
+            | ok bs =>
+              cases bs with
+              | nil => exact Outcome.idle' h1 _ _
+              | cons b bs =>
+                simp only []
+                cases hp : rp.parse (b :: bs) with
+                | mk rp' oy =>
+                  cases oy with
+                  | none => exact Outcome.idle' h1 _ _
+                  | some y => exact h1
+      | writing rest done =>
+        simp only [stepConn, Bool.false_eq_true, if_false]
+        cases hwl : writeAllLoop (rest.length + 1) rest env.tr with
+        | mk rest' x =>
+          obtain ⟨t, res⟩ := x
+          have hp := (writeAllLoop_oc _ _ _ hwl).anyMutex env.mutex
+          cases res with
+          | pending => exact hp.mono (fun hf => nomatch hf)
+          | err e => exact Outcome.idle' hp.same _ _
+          | panic s => exact Outcome.idle' hp.same _ _
+          | ready =>
+            have h1 : Same env.tr t := hp.same
+            simp only []
+            cases done with
+            | false => exact h1
+            | true =>
+              simp only [Bool.not_true, Bool.false_eq_true, if_false]
+              cases rp.intoStreamParser with
+              | error e => exact Outcome.idle' h1 _ _
+              | ok sp => exact h1
+
+/-- **The flag discipline of one poll** (no hypothesis on the flags before the poll). -/
+theorem pollConn_oc : ∀ (fuel : Nat) (c : Conn), CInv c →
+    Outcome c.env.tr (pollConn fuel c).1.env.tr (pollConn fuel c).1.env.mutex (prP (pollConn fuel c).2)
+      (ConnParked (pollConn fuel c).1)
+  | 0, _, _ => Outcome.idle _ _ _
+  | fuel + 1, c, hinv => by
+    rw [pollConn_succ]
+    have hs := stepConn_inv c hinv
+    have hp := stepConn_oc c hinv
+    cases hst : stepConn c with
+    | next c' => rw [hst] at hs hp; exact Outcome.pre hp (pollConn_oc fuel c' hs)
+    | halt c' r => rw [hst] at hp; exact hp
+
+section Flags
+variable {fuel : Nat} {c c' : Conn} {res : PRes}
+
+/-- `pollConn_oc` for a named result. -/
+theorem poll_flags (hinv : CInv c) (h : pollConn fuel c = (c', res)) :
+    Outcome c.env.tr c'.env.tr c'.env.mutex (prP res) (ConnParked c') := by
+  have := pollConn_oc fuel c hinv
+  rwa [h] at this
+
+/-- A poll that does not return `Pending` touches neither flag. -/
+theorem poll_done_flags (hinv : CInv c) (h : pollConn fuel c = (c', res)) (hr : res ≠ .pending) :
+    c'.env.tr.woken = c.env.tr.woken ∧ c'.env.tr.readWaker = c.env.tr.readWaker := by
+  have hp := poll_flags hinv h
+  cases res with
+  | pending => exact absurd rfl hr
+  | finished => exact hp.same
+  | panic s => exact hp.same
+
+/-- **At most one of the two flags is set by a poll**: from a state with both flags clear, a poll
+never returns with both `woken` and `readWaker` set. -/
+theorem poll_at_most_one_flag (hinv : CInv c) (h : pollConn fuel c = (c', res))
+    (hw0 : c.env.tr.woken = false) (hr0 : c.env.tr.readWaker = false) :
+    ¬ (c'.env.tr.woken = true ∧ c'.env.tr.readWaker = true) := by
+  rintro ⟨hw, hr⟩
+  rcases poll_flags hinv h with ⟨⟨h1, _⟩, _⟩ | ⟨_, _, h2⟩ | ⟨_, _, h2, _⟩
+  · rw [h1, hw0] at hw; cases hw
+  · rw [h2, hr0] at hr; cases hr
+  · rw [h2, hw0] at hw; cases hw
+
+/-- **A `Pending` poll that did not wake the task** (`woken` clear after the poll; the executor
+clears it before every poll): either a lock future found the mutex taken and the flags are as before
+(in particular a stale `readWaker` stays set), or a read parked *in this poll* and the task owes
+nothing — also when `readWaker` was already set before the poll (stale flag: the task is parked again,
+with the same guarantees). -/
+theorem pending_unwoken (hinv : CInv c) (h : pollConn fuel c = (c', .pending))
+    (hw : c'.env.tr.woken = false) :
+    (c'.env.mutex ≠ none ∧ c'.env.tr.readWaker = c.env.tr.readWaker) ∨
+      (c'.env.tr.readWaker = true ∧ ConnParked c') := by
+  rcases poll_flags hinv h with ⟨⟨_, h1⟩, hm⟩ | ⟨_, h2, _⟩ | ⟨_, hr, _, hk⟩
+  · exact Or.inl ⟨hm rfl, h1⟩
+  · rw [hw] at h2; cases h2
+  · exact Or.inr ⟨hr, hk⟩
+
+/-- The claim "a `Pending` poll that leaves `woken` clear has parked on a read" in full generality … -/
+def pending_unwoken_parked_full : Prop :=
+  ∀ (fuel : Nat) (c c' : Conn), CInv c → c.env.tr.woken = false → c.env.tr.readWaker = false →
+    pollConn fuel c = (c', .pending) → c'.env.tr.woken = false → c'.env.tr.readWaker = true
+
+/-- … holds whenever the mutex is free after the poll (what is excluded: the task waits for the
+`futures::lock::Mutex`, which in one task can only be held by a writer that kept it across an ignored
+write error — DESIGN §14.3, not a defect). -/
+theorem pending_unwoken_parked_partial (hinv : CInv c) (h : pollConn fuel c = (c', .pending))
+    (hw : c'.env.tr.woken = false) (hm : c'.env.mutex = none) :
+    c'.env.tr.readWaker = true ∧ ConnParked c' := by
+  rcases pending_unwoken hinv h hw with ⟨h1, _⟩ | h2
+  · exact absurd hm h1
+  · exact h2
+
+end Flags
+
+/-! ### The executor -/
+
+/-- What the executor's "STALL" verdict (task `Pending`, not woken, peer releases nothing that wakes
+it) means: the peer's next gate is closed on everything written so far, and either the task waits for
+its own mutex, or it is parked on a read owing nothing. -/
+def StallOut (c' : Conn) : Prop :=
+  GateClosed c'.env ∧ c'.env.tr.woken = false ∧
+    (c'.env.mutex ≠ none ∨ (c'.env.tr.readWaker = true ∧ ConnParked c'))
+
+theorem fuel_ne_stall : "FUEL" ≠ "STALL" := by decide
+theorem ret_ne_stall : "RET" ≠ "STALL" := by decide
+theorem panic_ne_stall : "PANIC" ≠ "STALL" := by decide
+
+theorem stall_leaf {c1 : Conn} {t0 : Transport}
+    (hoc : Outcome t0 c1.env.tr c1.env.mutex true (ConnParked c1))
+    (hw1 : c1.env.tr.woken = false) (hw2 : c1.env.release.1.tr.woken = false) :
+    StallOut { c1 with env := c1.env.release.1 } := by
+  obtain ⟨hm, hwk, hrw, hsame, hgate⟩ := release_spec c1.env
+  refine ⟨hgate, hw2, ?_⟩
+  rcases hoc with ⟨_, hmx⟩ | ⟨_, h2, _⟩ | ⟨_, hr, _, hin, ho, hpr, hmid⟩
+  · exact Or.inl (by rw [hm]; exact hmx rfl)
+  · rw [hw1] at h2; cases h2
+  · right
+    have hany : c1.env.release.2 = false := by
+      cases ha : c1.env.release.2 with
+      | false => rfl
+      | true => rw [hw2, hw1, ha, hr] at hwk; cases hwk
+    obtain ⟨hin', _⟩ := hsame hany
+    refine ⟨by rw [hrw, hany]; exact hr, ?_, ho, hpr, hmid⟩
+    show c1.env.release.1.tr.input = []
+    rw [hin', hin]
+
+/-- **Whenever the wake-accurate executor gives up with "STALL"** — for any stop request — the
+final state is as `StallOut` says. -/
+theorem runTask_stall : ∀ (fuel : Nat) (c : Conn) (n : Nat) (sa : Option Nat), CInv c →
+    (runTask fuel c n sa).2 = "STALL" → StallOut (runTask fuel c n sa).1
+  | 0, _, _, _, _, h => absurd h fuel_ne_stall
+  | fuel + 1, c, n, sa, hinv, h => by
+    rw [runTask_succ] at h ⊢
+    have hinv0 := CInv_of_phase (prePoll_phase c n sa) hinv
+    have hp := pollConn_inv 100000 _ hinv0
+    have hoc := pollConn_oc 100000 _ hinv0
+    generalize (prePoll c n sa).env.tr = t0 at hoc
+    generalize pollConn 100000 (prePoll c n sa) = x at hp hoc h ⊢
+    obtain ⟨c1, res⟩ := x
+    cases res with
+    | finished => exact absurd h ret_ne_stall
+    | panic s => exact absurd h panic_ne_stall
+    | pending =>
+      revert h
+      simp only []
+      split
+      · exact fun h => runTask_stall fuel _ _ _ hp h
+      · rename_i hw1
+        have hw1' : c1.env.tr.woken = false := by simpa using hw1
+        have hleaf := stall_leaf hoc hw1'
+        generalize c1.env.release = y at hleaf ⊢
+        obtain ⟨env, any⟩ := y
+        simp only [] at hleaf ⊢
+        split
+        · exact fun h => runTask_stall fuel _ _ _ (CInv_of_phase rfl hp) h
+        · rename_i hw2
+          have hw2' : env.tr.woken = false := by simpa using hw2
+          split
+          · split
+            · exact fun h => runTask_stall fuel _ _ _ (CInv_of_phase rfl hp) h
+            · exact fun _ => hleaf hw2'
+          · exact fun _ => hleaf hw2'
+
+section Executor
+variable {fuel : Nat} {c c' : Conn} {n : Nat} {sa : Option Nat}
+
+/-- `runTask_stall` for a named result. -/
+theorem runTask_stall_out (hinv : CInv c) (h : runTask fuel c n sa = (c', "STALL")) : StallOut c' := by
+  have := runTask_stall fuel c n sa hinv (by rw [h])
+  rwa [h] at this
+
+/-- **What the peer can conclude from a stall**: the gate of the first segment it still withholds is
+not satisfied by everything the task has written. -/
+theorem stall_means_gate_closed (hinv : CInv c) (h : runTask fuel c n sa = (c', "STALL"))
+    {g : Gate} {bs : Bytes} {rest : List (Gate × Bytes)} (hs : c'.env.segs = (g, bs) :: rest) :
+    g.open_ c'.env.tr.wlog = false :=
+  (runTask_stall_out hinv h).1 g bs rest hs
+
+/-- The unconditional claim: whenever the executor finds the task unrunnable with no stop request
+pending — started from a state with clean flags and a free mutex, as the initial connection state
+is — the task owes the client nothing. -/
+def runTask_stall_owes_nothing_full : Prop :=
+  ∀ (fuel : Nat) (c : Conn) (n : Nat) (c' : Conn), CInv c → c.env.tr.woken = false →
+    c.env.tr.readWaker = false → c.env.mutex = none → runTask fuel c n none = (c', "STALL") →
+    OwesNothing c'.phase ∧ Processed c'.phase ∧ c'.env.tr.input = []
+
+/-- **The executor-level statement** (the strongest true variant; any stop request, no hypothesis on
+the flags): if the executor gives up with "STALL" and the mutex is free, the task is parked on a read
+(`readWaker`), owes the client nothing, has processed everything it read, and the transport is
+drained.  Excluded: a stall with the `futures::lock::Mutex` taken — within one task that is a handler
+that ignored a write error (the failed `StreamWriter` keeps the lock) and then used the `Request` or
+another writer: the handler waits for itself (DESIGN §14.3 lists this as not a defect); see
+`runTask_stall_owes_nothing_full_false` for the witness. -/
+theorem runTask_stall_owes_nothing_partial (hinv : CInv c) (h : runTask fuel c n sa = (c', "STALL"))
+    (hm : c'.env.mutex = none) :
+    OwesNothing c'.phase ∧ Processed c'.phase ∧ c'.env.tr.input = [] ∧
+      c'.env.tr.readWaker = true ∧ MidRecord c'.phase := by
+  obtain ⟨_, _, hd⟩ := runTask_stall_out hinv h
+  rcases hd with hd | ⟨hr, hin, ho, hp, hmid⟩
+  · exact absurd hm hd
+  · exact ⟨ho, hp, hin, hr, hmid⟩
+
+end Executor
+
+/-! ### Non-vacuity and the witness -/
+section ExecutorExamples
+
+/-- iterate `stepConn` through `n` transitions -/
+def stepN : Nat → Conn → Conn
+  | 0, c => c
+  | n + 1, c => match stepConn c with
+    | .next c' => stepN n c'
+    | .halt c' _ => c'
+
+def allNext : Nat → Conn → Bool
+  | 0, _ => true
+  | n + 1, c => match stepConn c with
+    | .next c' => allNext n c'
+    | .halt _ _ => false
+
+theorem pollConn_stepN (f : Nat) : ∀ (n : Nat) (c : Conn), allNext n c = true →
+    pollConn (f + n) c = pollConn f (stepN n c)
+  | 0, _, _ => rfl
+  | n + 1, c, h => by
+    rw [show f + (n + 1) = (f + n) + 1 from rfl, pollConn_succ]
+    simp only [allNext, stepN] at h ⊢
+    cases hs : stepConn c with
+    | next c' => rw [hs] at h; exact pollConn_stepN f n c' h
+    | halt c' r => rw [hs] at h; cases h
+
+/-- verdict "STALL", mutex free, waker parked, in a phase accepted by `p` -/
+def stalledIn (x : Conn × String) (p : Phase → Bool) : Bool :=
+  x.2 == "STALL" && x.1.env.mutex.isNone && x.1.env.tr.readWaker && p x.1.phase
+
+theorem stalledIn_spec {x : Conn × String} {p : Phase → Bool} (h : stalledIn x p = true) :
+    x = (x.1, "STALL") ∧ x.1.env.mutex = none ∧ x.1.env.tr.readWaker = true ∧ p x.1.phase = true := by
+  obtain ⟨c, s⟩ := x
+  simp only [stalledIn, Bool.and_eq_true, beq_iff_eq, Option.isNone_iff_eq_none] at h
+  obtain ⟨⟨⟨h1, h2⟩, h3⟩, h4⟩ := h
+  exact ⟨by rw [show s = "STALL" from h1], h2, h3, h4⟩
+
+/-! #### A stall in the handler: the peer withholds the request body (`hold`) -/
+
+/-- handler script `[readAll]`; the peer releases its next segment only after 1000 reply bytes -/
+def exHS : Conn :=
+  { phase := .handler (AReq.new (Str.Parser.fromParser 64 exReq [] 1)) { ops := [.readAll] },
+    env := { tr := { input := [], endMode := .eof, rd := [], wr := [], fl := [] },
+             segs := [(.bytes 1000, [1])] }, scripts := [] }
+
+theorem exHS_stalls : stalledIn (runTask 3 exHS 0 none) isHandlerPhase = true := by decide +kernel
+
+example : ∃ c', runTask 3 exHS 0 none = (c', "STALL") ∧ OwesNothing c'.phase ∧ Processed c'.phase ∧
+    c'.env.tr.input = [] ∧ c'.env.segs = [(.bytes 1000, [1])] ∧
+    (Gate.bytes 1000).open_ c'.env.tr.wlog = false := by
+  obtain ⟨h, hm, _, _⟩ := stalledIn_spec exHS_stalls
+  obtain ⟨ho, hp, hin, _, _⟩ := runTask_stall_owes_nothing_partial (c := exHS) trivial h hm
+  have hs : (runTask 3 exHS 0 none).1.env.segs = [(.bytes 1000, [1])] := by decide +kernel
+  exact ⟨_, h, ho, hp, hin, hs, stall_means_gate_closed (c := exHS) trivial h hs⟩
+
+/-! #### A stall in `parse_request` after a complete request (KeepConn, end mode `pend`)
+
+The request parser is `done` with a KeepConn responder request; the handler returns at once; `close`
+writes the 32-byte epilogue and hands the parser back; `parse_request` parses the (empty) leftover,
+has nothing to write, reads — and parks, because the client sends nothing more and keeps the
+connection open.  The executor reports "STALL"; the client has received the complete reply. -/
+
+def exK : Conn :=
+  { phase := .parseReq { cap := 64, input := [], state := .done exReq, maxConns := 1 } (.writing [] true),
+    env := { tr := { input := [], endMode := .pend, rd := [], wr := [], fl := [] } },
+    scripts := [([.ret (.complete 0)], true)] }
+
+def rpK : Req.Parser := { cap := 64, input := [], state := .header, maxConns := 1 }
+
+theorem rpK_parse : rpK.parse [] = (rpK, some { done := false, output := [] }) := by
+  unfold Req.Parser.parse
+  simp only [rpK, List.append_nil, run_header_nil]
+  decide
+
+/-- the state in which the poll re-enters `parse_request` (after handler and `close`) -/
+def exKS : Conn := stepN 3 (prePoll exK 0 none)
+/-- … and in which it issues its read -/
+def exKR : Conn := { exKS with phase := .parseReq rpK .reading }
+
+theorem exKS_phase : exKS.phase = .parseReq rpK .start := by
+  have h : (match exKS.phase with
+      | .parseReq rp .start => decide (rp = rpK)
+      | _ => false) = true := by decide +kernel
+  cases hph : exKS.phase with
+  | parseReq rp sub =>
+    rw [hph] at h
+    cases sub with
+    | start => simp only [decide_eq_true_eq] at h; rw [h]
+    | reading => cases h
+    | writing _ _ => cases h
+  | handler _ _ => rw [hph] at h; cases h
+  | closing _ _ _ _ => rw [hph] at h; cases h
+  | finished => rw [hph] at h; cases h
+
+theorem exK_poll : pollConn 100000 (prePoll exK 0 none) = pollConn 99995 exKR := by
+  rw [show (100000 : Nat) = 99997 + 3 from rfl, pollConn_stepN 99997 3 _ (by decide +kernel)]
+  have h1 := C08.parse_before_read 99996 exKS _ _ _ exKS_phase (by decide +kernel) rpK_parse
+  have h2 := C08.output_written_before_read 99995
+    { exKS with phase := .parseReq rpK (.writing [] false) } rpK [] rfl (by decide +kernel) []
+    exKS.env.tr rfl
+  exact h1.trans h2
+
+theorem exK_stalls : stalledIn (runTask 3 exK 0 none)
+    (fun | .parseReq _ .reading => true | _ => false) = true := by
+  rw [runTask_succ, exK_poll]
+  decide +kernel
+
+example : CInv exK := ⟨trivial, nofun⟩
+
+example : ∃ c', runTask 3 exK 0 none = (c', "STALL") ∧ OwesNothing c'.phase ∧ Processed c'.phase ∧
+    c'.env.tr.input = [] ∧ c'.env.tr.wlog.length = 32 := by
+  obtain ⟨h, hm, _, _⟩ := stalledIn_spec exK_stalls
+  obtain ⟨ho, hp, hin, _, _⟩ := runTask_stall_owes_nothing_partial (c := exK) ⟨trivial, nofun⟩ h hm
+  refine ⟨_, h, ho, hp, hin, ?_⟩
+  rw [runTask_succ, exK_poll]
+  decide +kernel
+
+/-! #### The witness against the unconditional claim: a handler that waits for its own lock
+
+Two `StreamWriter`s; the first write fails (transport error), the handler ignores the error — the
+failed writer keeps the `futures::lock::Mutex` — and writes with the second writer, whose lock future
+finds the mutex taken.  Nobody will ever wake the task: the executor reports "STALL", the waker is not
+parked on a read, and the operation at the head of the script is a write. -/
+def exL : Conn :=
+  { phase := .handler (AReq.new (Str.Parser.fromParser 64 exReq [] 1))
+      { ops := [.open_ 6, .open_ 6, .writeAll 0 [1], .writeAll 1 [2]], propagate := false },
+    env := { tr := { input := [], endMode := .eof, rd := [], wr := [.err], fl := [] } }, scripts := [] }
+
+theorem exL_stalls : (runTask 3 exL 0 none).2 = "STALL" ∧
+    (runTask 3 exL 0 none).1.env.tr.readWaker = false ∧ (runTask 3 exL 0 none).1.env.tr.woken = false ∧
+    (runTask 3 exL 0 none).1.env.mutex = some 1 := by decide +kernel
+
+theorem exL_head : (match (runTask 3 exL 0 none).1.phase with
+    | .handler _ h => h.ops.head? == some (.writeAll 1 [2])
+    | _ => false) = true := by decide +kernel
+
+theorem runTask_stall_owes_nothing_full_false : ¬ runTask_stall_owes_nothing_full := by
+  intro hfull
+  have h : runTask 3 exL 0 none = ((runTask 3 exL 0 none).1, "STALL") := by
+    rw [← exL_stalls.1]
+  obtain ⟨ho, _, _⟩ := hfull 3 exL 0 _ trivial rfl rfl rfl h
+  have hh := exL_head
+  cases hph : (runTask 3 exL 0 none).1.phase with
+  | handler r hs =>
+    rw [hph] at ho hh
+    obtain ⟨_, op, rest, hops, hr⟩ := ho
+    simp only [] at hh
+    rw [hops] at hh
+    simp only [List.head?_cons, beq_iff_eq, Option.some.injEq] at hh
+    rw [hh] at hr; cases hr
+  | parseReq _ _ => rw [hph] at hh; cases hh
+  | closing _ _ _ _ => rw [hph] at hh; cases hh
+  | finished => rw [hph] at hh; cases hh
+
+/-- the same witness against `pending_unwoken_parked_full`: the first poll of `exL` -/
+theorem pending_unwoken_parked_full_false : ¬ pending_unwoken_parked_full := by
+  intro hfull
+  have hc : (match pollConn 100 exL with
+      | (c', .pending) => !c'.env.tr.woken && !c'.env.tr.readWaker
+      | _ => false) = true := by decide +kernel
+  cases hp : pollConn 100 exL with
+  | mk c' res =>
+    rw [hp] at hc
+    cases res with
+    | pending =>
+      simp only [Bool.and_eq_true, Bool.not_eq_true'] at hc
+      have := hfull 100 exL c' trivial rfl rfl hp hc.1
+      rw [hc.2] at this; cases this
+    | finished => cases hc
+    | panic s => cases hc
+
+/-- … and `runTask_stall` says exactly what happened there: the mutex is taken. -/
+example : StallOut (runTask 3 exL 0 none).1 ∧ (runTask 3 exL 0 none).1.env.mutex ≠ none :=
+  ⟨runTask_stall 3 exL 0 none trivial exL_stalls.1, by rw [exL_stalls.2.2.2]; exact nofun⟩
+
+end ExecutorExamples
 
 end Fcgi.C08Inv
